@@ -111,7 +111,9 @@ func runWrap(c WrapCase, plain bool) (*wrapExec, error) {
 			}()
 			var b lz.Block
 			for i := 0; i < c.Pre.Calls; i++ {
-				if _, err := wp.Parse(&b, 0); err != nil {
+				// the caller goes on after a reader fault and stops at
+				// io.EOF
+				if _, err := wp.Parse(&b, 0); err != nil && err != errScript {
 					break
 				}
 			}
@@ -234,6 +236,14 @@ func runWrap(c WrapCase, plain bool) (*wrapExec, error) {
 			}
 		case perr == errScript:
 			x.faults++
+			// every reader error surfaced must be one the reader of this
+			// stream has produced (a fault that came with data may be
+			// swallowed, so fewer is legal; more is not)
+			if produced := readerFaults(sr); x.faults > produced {
+				x.report("C08", "call %d: Parse returned a reader error although the reader has produced only %d faults and %d were already returned", x.calls, produced, x.faults-1)
+				x.report("C16", "call %d: wrapped Parse returned an error the reader of this stream never produced", x.calls)
+				x.report("C13", "call %d: wrapped Parse returned an error the reader of this stream never produced", x.calls)
+			}
 			if x.eofs > 0 {
 				x.report("C08", "call %d: reader error returned after io.EOF", x.calls)
 			}
@@ -263,6 +273,13 @@ func runWrap(c WrapCase, plain bool) (*wrapExec, error) {
 	return x, nil
 }
 
+func readerFaults(sr *scriptReader) int {
+	if sr == nil {
+		return 0
+	}
+	return sr.faults
+}
+
 // sameBlocks compares the block sequences of two runs up to the first io.EOF.
 func sameBlocks(a, b []wrapBlock) (bool, string) {
 	trim := func(s []wrapBlock) []wrapBlock {
@@ -289,6 +306,21 @@ func sameBlocks(a, b []wrapBlock) (bool, string) {
 // genWrapCase draws a wrapped-parser history. Inputs are bounded in buffer
 // fills (every GSAP/OSAP refill costs one suffix sort), not in bytes.
 func genWrapCase(t *rapid.T, kind string, maxBuf int, faults, eqShrink, nilCalls bool) WrapCase {
+	c := genWrapCase0(t, kind, maxBuf, faults, eqShrink, nilCalls)
+	if faults && rapid.IntRange(0, 9).Draw(t, "preUse") < 2 {
+		// the wrapped parser was used on another (possibly failing) reader
+		// before and Reset to the reader of the case
+		c.Pre = genWrapPre(t, true)
+	}
+	return c
+}
+
+func genWrapPre(t *rapid.T, faults bool) *WrapPre {
+	pre := genText(t, "preText", 300)
+	return &WrapPre{R: genReaderScript(t, "preRS", pre, faults), Calls: rapid.IntRange(0, 12).Draw(t, "preCalls")}
+}
+
+func genWrapCase0(t *rapid.T, kind string, maxBuf int, faults, eqShrink, nilCalls bool) WrapCase {
 	cfg := genPCfgOpt(t, kind, maxBuf, eqShrink)
 	cc := cfg.Completed()
 	bsz := minInt(cc.BufferSize, 4*maxBuf)
